@@ -43,7 +43,8 @@ def combine_patches(diffs):
                 p.diff = combine_patches(p.diff + d.diff)
         else:
             newdiffs.append(d)
-    return sorted(newdiffs, key=lambda x: x.key)
+    # Insertions before an item must precede the ops on the item itself
+    return sorted(newdiffs, key=lambda x: (x.key, x.op != DiffOp.ADDRANGE))
 
 
 def adjust_patch_level(target_path, common_path, diff):
